@@ -50,6 +50,20 @@ pub fn extract_and_bind(ty: &dyn GenType, op: LinOp, ctx: &Ctx, w3: bool, chain_
     replays += c;
     bad += b;
     kept.extend(k);
+    // model-guided states: those whose image under the extracted model is "special" (a zero word, equal
+    // words, words summing to zero, ...): what a guard keyed on the *result* would single out
+    let pre = linear::preimages_of_special(&ex, ty.info().word_bits, ctx.seed);
+    let (c, b, k) = linear::conform(ty, &ex, pre.len(), &|i| pre[i].clone());
+    replays += c;
+    bad += b;
+    kept.extend(k);
+    ctx.add("special_image_preimages", c);
+    // and the special values themselves as states
+    let sp = linear::special_images(n, ty.info().word_bits, ctx.seed ^ 1);
+    let (c, b, k) = linear::conform(ty, &ex, sp.len(), &|i| sp[i].clone());
+    replays += c;
+    bad += b;
+    kept.extend(k);
     if w3 {
         let (c, b, k) = linear::conform_w3(ty, &ex);
         replays += c;
